@@ -962,7 +962,12 @@ impl<'de, R: Read<'de>> Parser<R> {
                         let next = self.peek_or_null()?;
                         if next == 0 || is_delimiter(next) {
                             if !have_value {
-                                return Err(self.peek_error(ErrorCode::ExpectedSomeValue));
+                                // At the end of input, the dot may still
+                                // become a symbol such as `...`
+                                return Err(match self.peek()? {
+                                    Some(_) => self.peek_error(ErrorCode::ExpectedSomeValue),
+                                    None => self.peek_error(ErrorCode::EofWhileParsingList),
+                                });
                             }
                             pair.set_cdr(self.expect_value()?);
                             match self.parse_whitespace()? {
@@ -1023,7 +1028,12 @@ impl<'de, R: Read<'de>> Parser<R> {
                         let next = self.peek_or_null()?;
                         if next == 0 || is_delimiter(next) {
                             if !have_value {
-                                return Err(self.peek_error(ErrorCode::ExpectedSomeValue));
+                                // At the end of input, the dot may still
+                                // become a symbol such as `...`
+                                return Err(match self.peek()? {
+                                    Some(_) => self.peek_error(ErrorCode::ExpectedSomeValue),
+                                    None => self.peek_error(ErrorCode::EofWhileParsingList),
+                                });
                             }
                             let (cdr, cdr_meta) = self.expect_datum()?.into_inner();
                             pair.set_cdr(cdr);
